@@ -367,8 +367,9 @@ class ExecGen:
     def __init__(self, tt):
         self.tt = tt
         self.cnt = 0
+        self.positions = []
 
-    def stmts(self, v, t, ind):
+    def stmts(self, v, t, ind, path="?"):
         """statements pushing all nodes under value expression v (a reference expr) of type t"""
         tt = self.tt
         if not tt.t_carrier(t):
@@ -378,32 +379,33 @@ class ExecGen:
         if t[0] == "tuple":
             out = []
             for i, e in enumerate(t[1]):
-                out += self.stmts("&(%s).%d" % (v, i), e, ind)
+                out += self.stmts("&(%s).%d" % (v, i), e, ind, path + ".%d" % i)
             return out
         name, args = t[1], t[2]
         if name == "Box":
-            return self.stmts("&**(%s)" % v, args[0], ind)
+            return self.stmts("&**(%s)" % v, args[0], ind, path)
         if name == "Option":
             self.cnt += 1
             o = "o%d" % self.cnt
-            inner = self.stmts(o, args[0], ind + 4)
+            inner = self.stmts(o, args[0], ind + 4, path)
             return ["%sif let Some(%s) = %s {" % (pad, o, v)] + inner + ["%s}" % pad]
         if name == "Vec":
             self.cnt += 1
             e = "e%d" % self.cnt
-            inner = self.stmts(e, args[0], ind + 4)
+            inner = self.stmts(e, args[0], ind + 4, path + "[]")
             return ["%sfor %s in (%s).iter() {" % (pad, e, v)] + inner + ["%s}" % pad]
         if name in NODE_TYPES:
-            return ["%san_%s(%s, out);" % (pad, name, v)]
+            self.positions.append("%s: %s" % (path, name))
+            return ["%shit(%d);" % (pad, len(self.positions) - 1), "%san_%s(%s, out);" % (pad, name, v)]
         d = tt.types[name]
         if d[0] == "struct":
             out = []
             for f, ft in d[2]:
-                out += self.stmts("&(%s).%s" % (v, f), ft, ind)
+                out += self.stmts("&(%s).%s" % (v, f), ft, ind, path + "/" + name + "." + f)
             return out
-        return self.enum_match(v, name, ind)
+        return self.enum_match(v, name, ind, path)
 
-    def enum_match(self, v, n, ind):
+    def enum_match(self, v, n, ind, path=""):
         d = self.tt.types[n]
         pad = " " * ind
         self.cnt += 1
@@ -417,13 +419,13 @@ class ExecGen:
                 binds = ["g%d_%d" % (u, i) for i, _ in enumerate(fs)]
                 pat = "(" + ", ".join(binds) + ")"
                 body = []
-                for b, (_, t) in zip(binds, fs):
-                    body += self.stmts(b, t, ind + 8)
+                for i, (b, (_, t)) in enumerate(zip(binds, fs)):
+                    body += self.stmts(b, t, ind + 8, "%s/%s::%s.%d" % (path, n, vn, i))
             else:
                 pat = "{ " + ", ".join("%s: g%d_%s" % (f, u, f) for f, _ in fs) + " }"
                 body = []
                 for f, t in fs:
-                    body += self.stmts("g%d_%s" % (u, f), t, ind + 8)
+                    body += self.stmts("g%d_%s" % (u, f), t, ind + 8, "%s/%s::%s.%s" % (path, n, vn, f))
             lines.append("%s    #[allow(unused_variables)]" % pad)
             lines.append("%s    pt::%s::%s%s => {" % (pad, n, vn, pat))
             lines += body
@@ -444,9 +446,9 @@ class ExecGen:
             out.append("    out.push(Node::%s(x.clone()));" % n)
             if d[0] == "struct":
                 for f, t in d[2]:
-                    out += self.stmts("&x.%s" % f, t, 4)
+                    out += self.stmts("&x.%s" % f, t, 4, n + "." + f)
             else:
-                out += self.enum_match("x", n, 4)
+                out += self.enum_match("x", n, 4, "")
             out.append("}\n")
         out.append("pub fn all_nodes(n: &Node) -> Vec<Node> {\n    let mut out = vec![];\n    match n {")
         for n in NODE_TYPES:
@@ -461,6 +463,12 @@ class ExecGen:
                 out.append("        pt::%s::%s%s => Target::%s," % (tyname, vn, pat, tgt))
             out.append("    }\n}\n")
         out.append("pub fn kind(n: &Node) -> Target {\n    match n {\n        Node::Statement(s) => kind_Statement(s),\n        Node::Expression(e) => kind_Expression(e),\n        Node::SourceUnit(_) => Target::SourceUnit,\n        Node::SourceUnitPart(p) => kind_SourceUnitPart(p),\n        Node::ContractPart(p) => kind_ContractPart(p),\n    }\n}\n")
+        out.append("pub const POSITIONS: &[&str] = &[")
+        for p_ in self.positions:
+            out.append('    "%s",' % p_)
+        out.append("];\n")
+        out.append("pub static COV: [std::sync::atomic::AtomicU64; %d] = [const { std::sync::atomic::AtomicU64::new(0) }; %d];" % (len(self.positions), len(self.positions)))
+        out.append("#[inline] fn hit(i: usize) { COV[i].fetch_add(1, std::sync::atomic::Ordering::Relaxed); }\n")
         out.append("pub const TARGET_NAMES: &[(&str, Target)] = &[")
         for v in target_variants:
             out.append('    ("%s", Target::%s),' % (v, v))
